@@ -213,6 +213,7 @@ def run(facts, rep, ctx):
         okp = [p for p in hit if p.end == "ret" and is_err_term(p.ret) is False]
         patt = set()
         isdir = False
+        wrapped = None
         for p in okp:
             for e in p.events:
                 if e["k"] == "call" and e["callee"] == "std::fmt::Arguments::<'a>::new":
@@ -225,6 +226,12 @@ def run(facts, rep, ctx):
                             if x[0] == "call" and x[1].endswith("new_display"):
                                 fills.append(x[2][0])
                         patt.add((tuple(pieces), tuple(fmt(norm(f))[:50] for f in fills)))
+                        # the caller's pattern is matched as given, relative to the listed directory: a template that
+                        # puts glob syntax of its own around it changes which entries match
+                        if name == "list" and any(isinstance(pc, str) and any(ch in pc for ch in "*?[") for pc in pieces) and any(
+                                x[0] == "param" and x[1] == 3 for f_ in fills for x in walk(f_)):
+                            wrapped = "".join(pc if isinstance(pc, str) else "{}" for pc in pieces)
+
                         for f in fills:
                             for x in walk(f):
                                 if x[0] == "const" and x[1] == "**/*":
@@ -267,6 +274,8 @@ def run(facts, rep, ctx):
             else:
                 rep.inconc(R5, "sub-directory listing: glob pattern not recognised")
         else:
+            if wrapped:
+                rep.violation(R5, b.name, "caller-pattern-wrapped", "FileSystemLayer::list builds the pattern %r around the caller's pattern: entries the caller's pattern does not match relative to the directory (deeper levels) are listed" % wrapped, "%s:%s" % (b.file, b.line))
             if "**/*" in stars:
                 rep.ok(R5, {"fn": b.name, "default_pattern": "**/*"})
             elif stars:
